@@ -85,7 +85,7 @@ MUTATION_DRILLS = [
  }
 ]
 
-AUTO_COMMIT = {"synth_express": True, "synth_fluid": False, "synth_punct_express": True, "synth_punct_fluid": False, "synth_kb_express": True, "synth_kb_fluid": False, "luna_pinyin": True, "luna_pinyin_fluid": False,
+AUTO_COMMIT = {"synth_express": True, "synth_fluid": False, "synth_punct_express": True, "synth_punct_fluid": False, "synth_kb_express": True, "synth_kb_fluid": False, "synth_ascii_express": True, "synth_ascii_fluid": False, "luna_pinyin": True, "luna_pinyin_fluid": False,
                "cangjie5": True, "cangjie5_fluid": False}
 
 
@@ -226,8 +226,14 @@ def run(ctx):
     synth += [(englib.SYNTH_PUNCT[i % 2], englib.gen_commit_history(rng, length())) for i in range(n_punct // 2)]
     synth += [(englib.SYNTH_KB[i % 2], englib.gen_kb_history(rng, length(), full_shape=False)) for i in range(n_punct)]
     synth += [(englib.SYNTH_KB[i % 2], englib.gen_commit_history(rng, length())) for i in range(n_punct // 2)]
+    # round 4: ascii_composer / ascii_segmentor in the chains (mode-switch styles commit_text / commit_code deliver text on their own)
+    synth += [(englib.SYNTH_ASCII[i % 2], englib.gen_ascii_history(rng, length(), full_shape=False)) for i in range(n_punct)]
+    synth += [(englib.SYNTH_ASCII[i % 2], englib.gen_commit_history(rng, length())) for i in range(n_punct // 2)]
+    stock += [(englib.STOCK[i % 4], englib.gen_ascii_history(rng, length(), full_shape=False, stock=True)) for i in range(n_punct // 2)]
     ctx.coverage["punct_histories"] = {"punct_keys": n_punct, "commit_histories_on_punct_schemas": n_punct // 2,
-                                       "key_binder": n_punct, "commit_histories_on_key_binder_schemas": n_punct // 2}
+                                       "key_binder": n_punct, "commit_histories_on_key_binder_schemas": n_punct // 2,
+                                       "ascii_composer": n_punct, "commit_histories_on_ascii_schemas": n_punct // 2,
+                                       "ascii_composer_on_stock_schemas": n_punct // 2}
     ctx.coverage["pattern_histories"] = {"affix_phony_segments": n_pat, "no_auto_commit": 2 * (n_pat // 3)}
 
     stats = collections.Counter()
